@@ -41,9 +41,11 @@ def _enclosing_fn(text_lines, line_no):
                 lj = strip(text_lines[j])
                 depth += lj.count("}") - lj.count("{")
                 if depth < 0:
-                    # line j opens the block that contains the function
-                    mi = re.match(r"^\s*impl\b.*\bfor\s+(.+?)\s*\{", lj)
-                    mt = re.match(r"^\s*(?:pub\s+)?trait\s+(\w+)", lj)
+                    # line j opens the block that contains the function (its header may span a few lines: where clauses)
+                    hdr = " ".join(strip(x).strip() for x in text_lines[max(0, j - 4):j + 1])
+                    hdr = hdr[max(hdr.rfind("impl<"), hdr.rfind("impl "), hdr.rfind("trait "), 0):]
+                    mi = re.match(r"^\s*impl\b.*\bfor\s+(.+?)\s*(?:where\b.*)?\{", hdr) or re.match(r"^\s*impl(?:<[^>]*>)?\s+([\w\[\]]+(?:<[^>]*>)?)\s*(?:where\b.*)?\{", hdr)
+                    mt = re.match(r"^\s*(?:pub\s+)?trait\s+(\w+)", hdr)
                     if mi:
                         return "%s::%s" % (mi.group(1).strip(), name)
                     if mt:
